@@ -82,9 +82,14 @@ def run(ctx):
     for i in range(n):
         for store in ("mem", "sqlite"):
             scs.append(gen_scenario(ctx.seed, i, store))
-    results = ctx.harness("run", scs)
+    def batches():
+        # the rows of five collections after every operation are large: a batch of observations is dropped before the next one is run
+        for lo in range(0, len(scs), 400):
+            part = scs[lo:lo + 400]
+            for pair in zip(part, ctx.harness("run", part, tag="h%d" % (lo // 400))):
+                yield pair
     stats = {"finished": 0, "endings": {}, "keep_runs": 0, "default_runs": 0, "refused_after_removal": 0, "rm_model": 0}
-    for sc, res in zip(scs, results):
+    for sc, res in batches():
         ctx.cov["evaluations"] += 1
         if res.get("panic") or res.get("crashed"):
             ctx.violation("C17|engine-panic", f"engine panicked: {str(res.get('panic'))[:100]}", {"scenario": sc})
